@@ -342,6 +342,7 @@ impl Core {
         if self.cfg.pct_depth > 0 && self.pct_points.contains(&self.steps) {
             self.slots[me].prio = self.pct_low;
             self.pct_low = self.pct_low.saturating_sub(1);
+            *self.counters.entry("pct_priority_change_point_hit".to_string()).or_insert(0) += 1;
         }
         if self.cfg.rate(Fk::ExecCost) > 0 {
             if self.next_cost_in == 0 {
@@ -1043,6 +1044,7 @@ where
     let mut core = core;
     if core.cfg.pct_depth > 0 {
         let span = core.cfg.pct_span.max(1);
+        core.counters.insert("run_scheduled_pct_style".to_string(), 1);
         for _ in 0..core.cfg.pct_depth {
             let p = 1 + core.sched.draw(span) as u64;
             core.pct_points.push(p);
